@@ -250,36 +250,35 @@ Qed.
 Lemma length_pos_ne {A} (l : list A) : (0 <? length l)%nat = true -> l <> [].
 Proof. destruct l; cbn; [discriminate|intros _; discriminate]. Qed.
 
+Ltac red_st :=
+  cbv beta iota zeta delta [negb fst snd l_ode l_pot l_T l_F l_P set_l_ode set_l_pot set_l_T
+                            set_l_F set_l_P ode_t ode_y ode_h ode_running set_y].
 Ltac body_cases :=
   unfold loop_body;
   match goal with |- context [rk_step X ?o] => destruct (rk_step X o) as [o1|] eqn:Hstep end;
-  [destruct paranoid eqn:Hp; cbn [negb];
+  [destruct paranoid eqn:Hp; red_st;
    repeat match goal with
      | |- context [findLocalMinimum X ?y ?t ?tol] =>
-         destruct (findLocalMinimum X y t tol) as [ph pv] eqn:?
+         destruct (findLocalMinimum X y t tol) as [ph pv] eqn:?; red_st
      end;
-   cbn [l_ode l_pot l_T l_F l_P set_l_ode set_l_pot set_l_T set_l_F set_l_P ode_t ode_y ode_h
-        ode_running set_y];
    repeat match goal with
-     | |- context [if ?c then _ else _] => destruct c eqn:?
-     end;
-   cbn [fst snd l_ode l_pot l_T l_F l_P set_l_ode set_l_pot set_l_T set_l_F set_l_P ode_t ode_y
-        ode_h ode_running set_y]
-  | cbn [fst snd]].
+     | |- context [if ?c then _ else _] => destruct c eqn:?; red_st
+     end
+  | red_st].
 
 (** one execution of the loop body: the table is unchanged, or one good entry is appended, or
     the last entry is overwritten by a good entry *)
-Lemma body_entries st : aligned st ->
-  let r := loop_body X T0 rTol spinodal paranoid st in
+Lemma body_entries_r st r : loop_body X T0 rTol spinodal paranoid st = r -> aligned st ->
   aligned (fst r) /\
   (entries (fst r) = entries st \/
    exists e, good_entry e /\
      (entries (fst r) = entries st ++ [e] \/
       (l_T st <> [] /\ entries (fst r) = removelast (entries st) ++ [e]))).
 Proof.
-  intros [A1 A2]. cbv zeta. destruct st as [o pot lT lF lP]. unfold aligned, entries in *.
+  intros Er [A1 A2]. revert Er. destruct st as [o pot lT lF lP]. unfold aligned, entries in *.
   cbn [l_ode l_pot l_T l_F l_P] in *.
   body_cases.
+  all: intros <-; red_st.
   all: try (split; [split; assumption|left; reflexivity]).
   all: try match goal with H : (_ && _)%bool = true |- _ =>
          apply andb_prop in H; destruct H as [Hne _]; apply length_pos_ne in Hne end.
@@ -304,6 +303,15 @@ Proof.
   all: first [ left; split; [assumption|first [right; reflexivity|left; eexists; eexists; eassumption]]
              | right; split; [first [reflexivity|assumption]|eexists; split; eassumption] ].
 Qed.
+
+Lemma body_entries st : aligned st ->
+  let r := loop_body X T0 rTol spinodal paranoid st in
+  aligned (fst r) /\
+  (entries (fst r) = entries st \/
+   exists e, good_entry e /\
+     (entries (fst r) = entries st ++ [e] \/
+      (l_T st <> [] /\ entries (fst r) = removelast (entries st) ++ [e]))).
+Proof. intros A. exact (body_entries_r st _ eq_refl A). Qed.
 
 Theorem sweep_entries fuel st0 : aligned st0 ->
   let st := trace_dir X fuel T0 rTol spinodal paranoid st0 in
@@ -347,54 +355,90 @@ Proof. destruct l as [|x r]; [auto|intros [_ H]; exact H]. Qed.
 Lemma decr_removelast l : decr l -> decr (removelast l).
 Proof. unfold decr. rewrite rev_removelast. apply incr_tl. Qed.
 
+(** what one execution of the body does to the temperature list and the integrator time *)
+Lemma body_T_r st r0 : loop_body X T0 rTol spinodal paranoid st = r0 ->
+  let r := fst r0 in
+  r = st \/
+  exists o1, rk_step X (l_ode st) = Some o1 /\ ode_t (l_ode r) = ode_t o1 /\
+    (l_T r = l_T st \/ l_T r = l_T st ++ [ode_t o1] \/
+     (l_T st <> [] /\ l_T r = removelast (l_T st) ++ [ode_t o1])).
+Proof.
+  destruct st as [o pot lT lF lP].
+  body_cases.
+  all: intros <-; cbv zeta; red_st.
+  all: cbn [l_ode l_pot l_T l_F l_P set_l_ode ode_t ode_y] in *.
+  all: try (left; reflexivity).
+  all: right; exists o1; split; [first [exact Hstep|reflexivity]|split; [reflexivity|]].
+  all: try (left; reflexivity).
+  all: try (right; left; reflexivity).
+  all: right; right; split; [|reflexivity].
+  all: match goal with H : (_ && _)%bool = true |- _ =>
+         apply andb_prop in H; destruct H as [Hne _]; apply length_pos_ne in Hne; exact Hne end.
+Qed.
+
+Lemma body_T st :
+  let r := fst (loop_body X T0 rTol spinodal paranoid st) in
+  r = st \/
+  exists o1, rk_step X (l_ode st) = Some o1 /\ ode_t (l_ode r) = ode_t o1 /\
+    (l_T r = l_T st \/ l_T r = l_T st ++ [ode_t o1] \/
+     (l_T st <> [] /\ l_T r = removelast (l_T st) ++ [ode_t o1])).
+Proof. exact (body_T_r st _ eq_refl). Qed.
+
 Lemma body_up st : (forall o o', rk_step X o = Some o' -> ode_t o < ode_t o') ->
   up_inv st -> up_inv (fst (loop_body X T0 rTol spinodal paranoid st)).
 Proof.
-  intros Hrk [I1 [I2 [I3 I4]]]. destruct st as [o pot lT lF lP]. unfold up_inv in *.
-  cbn [l_ode l_pot l_T l_F l_P] in *.
-  body_cases.
-  all: try (specialize (Hrk _ _ Hstep)).
-  all: cbn [l_ode l_pot l_T l_F l_P set_l_ode ode_t ode_y] in *.
-  all: try (repeat split; [exact I1|intros x Hx; specialize (I2 x Hx); lra|exact I3|lra]).
-  all: repeat split;
-    [first [apply incr_snoc; [exact I1|intros y Hy; specialize (I2 y Hy); lra]
-           |apply incr_snoc; [apply incr_removelast; exact I1
-                             |intros y Hy; apply In_removelast in Hy; specialize (I2 y Hy); lra]]
-    |intros x Hx; apply in_app_or in Hx; destruct Hx as [Hx|[Hx|[]]];
-       [try apply In_removelast in Hx; specialize (I2 x Hx); lra|subst x; lra]
-    |intros x Hx; apply in_app_or in Hx; destruct Hx as [Hx|[Hx|[]]];
-       [try apply In_removelast in Hx; apply I3; exact Hx|subst x; lra]
-    |lra].
+  intros Hrk [I1 [I2 [I3 I4]]]. destruct (body_T st) as [E|[o1 [Hs [Et HT]]]].
+  - rewrite E. repeat split; assumption.
+  - specialize (Hrk _ _ Hs). unfold up_inv. rewrite Et.
+    destruct HT as [E|[E|[Hne E]]]; rewrite E.
+    + repeat split; [exact I1|intros x Hx; specialize (I2 x Hx); lra|exact I3|lra].
+    + repeat split.
+      * apply incr_snoc; [exact I1|intros y Hy; specialize (I2 y Hy); lra].
+      * intros x Hx; apply in_app_or in Hx; destruct Hx as [Hx|[Hx|[]]];
+          [specialize (I2 x Hx); lra|subst x; lra].
+      * intros x Hx; apply in_app_or in Hx; destruct Hx as [Hx|[Hx|[]]];
+          [apply I3; exact Hx|subst x; lra].
+      * lra.
+    + repeat split.
+      * apply incr_snoc; [apply incr_removelast; exact I1
+                         |intros y Hy; apply In_removelast in Hy; specialize (I2 y Hy); lra].
+      * intros x Hx; apply in_app_or in Hx; destruct Hx as [Hx|[Hx|[]]];
+          [apply In_removelast in Hx; specialize (I2 x Hx); lra|subst x; lra].
+      * intros x Hx; apply in_app_or in Hx; destruct Hx as [Hx|[Hx|[]]];
+          [apply In_removelast in Hx; apply I3; exact Hx|subst x; lra].
+      * lra.
 Qed.
 
 Lemma body_down st : (forall o o', rk_step X o = Some o' -> ode_t o' < ode_t o) ->
   down_inv st -> down_inv (fst (loop_body X T0 rTol spinodal paranoid st)).
 Proof.
-  intros Hrk [I1 [I2 [I3 I4]]]. destruct st as [o pot lT lF lP]. unfold down_inv in *.
-  cbn [l_ode l_pot l_T l_F l_P] in *.
-  body_cases.
-  all: try (specialize (Hrk _ _ Hstep)).
-  all: cbn [l_ode l_pot l_T l_F l_P set_l_ode ode_t ode_y] in *.
-  all: try (repeat split; [exact I1|intros x Hx; specialize (I2 x Hx); lra|exact I3|lra]).
-  all: repeat split;
-    [first [apply decr_snoc; [exact I1|intros y Hy; specialize (I2 y Hy); lra]
-           |apply decr_snoc; [apply decr_removelast; exact I1
-                             |intros y Hy; apply In_removelast in Hy; specialize (I2 y Hy); lra]]
-    |intros x Hx; apply in_app_or in Hx; destruct Hx as [Hx|[Hx|[]]];
-       [try apply In_removelast in Hx; specialize (I2 x Hx); lra|subst x; lra]
-    |intros x Hx; apply in_app_or in Hx; destruct Hx as [Hx|[Hx|[]]];
-       [try apply In_removelast in Hx; apply I3; exact Hx|subst x; lra]
-    |lra].
+  intros Hrk [I1 [I2 [I3 I4]]]. destruct (body_T st) as [E|[o1 [Hs [Et HT]]]].
+  - rewrite E. repeat split; assumption.
+  - specialize (Hrk _ _ Hs). unfold down_inv. rewrite Et.
+    destruct HT as [E|[E|[Hne E]]]; rewrite E.
+    + repeat split; [exact I1|intros x Hx; specialize (I2 x Hx); lra|exact I3|lra].
+    + repeat split.
+      * apply decr_snoc; [exact I1|intros y Hy; specialize (I2 y Hy); lra].
+      * intros x Hx; apply in_app_or in Hx; destruct Hx as [Hx|[Hx|[]]];
+          [specialize (I2 x Hx); lra|subst x; lra].
+      * intros x Hx; apply in_app_or in Hx; destruct Hx as [Hx|[Hx|[]]];
+          [apply I3; exact Hx|subst x; lra].
+      * lra.
+    + repeat split.
+      * apply decr_snoc; [apply decr_removelast; exact I1
+                         |intros y Hy; apply In_removelast in Hy; specialize (I2 y Hy); lra].
+      * intros x Hx; apply in_app_or in Hx; destruct Hx as [Hx|[Hx|[]]];
+          [apply In_removelast in Hx; specialize (I2 x Hx); lra|subst x; lra].
+      * intros x Hx; apply in_app_or in Hx; destruct Hx as [Hx|[Hx|[]]];
+          [apply In_removelast in Hx; apply I3; exact Hx|subst x; lra].
+      * lra.
 Qed.
 
 Lemma body_nonempty st : l_T st <> [] ->
   l_T (fst (loop_body X T0 rTol spinodal paranoid st)) <> [].
 Proof.
-  intros Hx. destruct st as [o pot lT lF lP]. cbn [l_T] in Hx.
-  body_cases.
-  all: cbn [l_ode l_pot l_T l_F l_P set_l_ode ode_t ode_y] in *.
-  all: try exact Hx.
-  all: intros E; apply app_eq_nil in E; destruct E as [_ E]; discriminate.
+  intros Hx. destruct (body_T st) as [E|[o1 [_ [_ [E|[E|[_ E]]]]]]]; rewrite E; try exact Hx.
+  all: intros E'; apply app_eq_nil in E'; destruct E' as [_ E']; discriminate.
 Qed.
 End Loop.
 
